@@ -475,7 +475,7 @@ func Run(ctx *common.Ctx) {
 		add(b, fmt.Sprintf("random %s depth=%d exit=%s kinds=%s", mode, d, g.exitKind, strings.Join(g.usedKinds, ">")))
 	}
 	ctx.Meta.DistinctNontrivial = len(distinct)
-	ctx.Meta.Rule = "re-entrant: a generated defun whose return-from / return / go site is evaluated again while its own exit is in flight (self-call from an unwind-protect cleanup form, from the value form of the exit, inside the protected form), called 2-3 times with the counter rewound, every evaluation handing a different value to its exit; systematic: every (form kind x body position x exit kind) one level deep and every ordered pair of form kinds two levels deep, inside (block b (tagbody <nest> (tr) T (tr)) (tr)); random: nestings of depth 1..5 (plus side trees) of block, tagbody, unwind-protect (protected form and cleanup), with-mutex-lock, ignore-errors, recover (body and handler), with-open-file, let (body and init), progn, when (body and test), cond (body and test), dolist, dotimes, do (bodies and result forms), list arguments, return-from value, funcall of a lambda, calls of generated defuns, with an exit (normal, return-from/return to a visible or unknown block, go to a visible tag, error of 5 classes) at a random body position; result + ordered (tr k) trace, each entry with the mutexes held (TryLock) and the descriptors open on the test files (/proc/self/fd), + the same after the run; distinct = distinct programs with at least one nesting form and a non-normal exit"
+	ctx.Meta.Rule = "since repo_fixes/C07-1..21 every body position hands an exit on, so exits stand in first / middle / last positions alike, in arguments, let inits, tests, return-from value forms, cleanup forms and result forms, and a go may jump backward (generated behind a counter test so that every program ends), to symbol tags, out of inner tagbodies, loops and function calls; the steered half of the random programs is lexically scoped (inside the guard), the wild half also names blocks / tags of callers and unknown ones; re-entrant: a generated defun whose return-from / return / go site is evaluated again while its own exit is in flight (self-call from an unwind-protect cleanup form, from the value form of the exit, inside the protected form), called 2-3 times with the counter rewound, every evaluation handing a different value to its exit; systematic: every (form kind x body position x exit kind) one level deep and every ordered pair of form kinds two levels deep, inside (block b (tagbody <nest> (tr) T (tr)) (tr)); random: nestings of depth 1..5 (plus side trees) of block, tagbody, unwind-protect (protected form and cleanup), with-mutex-lock, ignore-errors, recover (body and handler), with-open-file, let (body and init), progn, when (body and test), cond (body and test), dolist, dotimes, do (bodies and result forms), list arguments, return-from value, funcall of a lambda, calls of generated defuns, with an exit (normal, return-from/return to a visible or unknown block, go to a visible tag, error of 5 classes) at a random body position; result + ordered (tr k) trace, each entry with the mutexes held (TryLock) and the descriptors open on the test files (/proc/self/fd), + the same after the run; distinct = distinct programs with at least one nesting form and a non-normal exit"
 	header := "From C07 Require Import Model Spec Corr.\nOpen Scope N_scope.\n"
 	footer := "Definition res := Eval vm_compute in check_all cases.\nPrint res.\n" +
 		"Definition in_guard_count := Eval vm_compute in in_guard cases.\nPrint in_guard_count.\n" +
